@@ -117,6 +117,11 @@ theorem rangeLen_up (x L n : Int) (room : Nat) (hx : n - 1 - x = room) :
   simp only [rangeLen, imin, iters]
   split <;> simp <;> omega
 
+/-- the same for a bound written differently (`max(-1, row - len_arms)`, …): unfold and decide by linear arithmetic -/
+macro "range_len" : tactic => `(tactic| (
+  simp [rangeLen, imax, imin, iters]
+  (repeat' split) <;> omega))
+
 theorem imax_pred (x : Nat) : 0 ≤ imax ((x : Int) - 1) 0 ∧ imax ((x : Int) - 1) 0 ≤ x
     ∧ (imax ((x : Int) - 1) 0).toNat = x - 1 := by
   unfold imax; split <;> omega
@@ -144,14 +149,10 @@ theorem crossSupport_generated_eq (H W : Nat) (lenArms : Int) (I : ℚ) (img : I
   simp only [crossSupportPx, hanchor, hinb, isFinite_ofMasked]
   by_cases ha : (img y x).isNum = true
   · -- the four loops, each recognised by its start and step, whatever its body and its position in the text
-    rw [forRange_arm I (fun k => img y (x - k)) ((x : Int) - 1) _ (-1) (iters lenArms.toNat x) _
-          (rangeLen_down x lenArms x rfl) ?left,
-        forRange_arm I (fun k => img y (x + k)) ((x : Int) + 1) _ 1 (iters lenArms.toNat (W - 1 - x)) _
-          (rangeLen_up x lenArms W (W - 1 - x) (by omega)) ?right,
-        forRange_arm I (fun k => img (y - k) x) ((y : Int) - 1) _ (-1) (iters lenArms.toNat y) _
-          (rangeLen_down y lenArms y rfl) ?top,
-        forRange_arm I (fun k => img (y + k) x) ((y : Int) + 1) _ 1 (iters lenArms.toNat (H - 1 - y)) _
-          (rangeLen_up y lenArms H (H - 1 - y) (by omega)) ?bot]
+    rw [forRange_arm I (fun k => img y (x - k)) ((x : Int) - 1) _ (-1) (iters lenArms.toNat x) _ ?nleft ?left,
+        forRange_arm I (fun k => img y (x + k)) ((x : Int) + 1) _ 1 (iters lenArms.toNat (W - 1 - x)) _ ?nright ?right,
+        forRange_arm I (fun k => img (y - k) x) ((y : Int) - 1) _ (-1) (iters lenArms.toNat y) _ ?ntop ?top,
+        forRange_arm I (fun k => img (y + k) x) ((y : Int) + 1) _ 1 (iters lenArms.toNat (H - 1 - y)) _ ?nbot ?bot]
     · have l := imax_pred x
       have t := imax_pred y
       have r := imin_succ x W hx
@@ -172,6 +173,11 @@ theorem crossSupport_generated_eq (H W : Nat) (lenArms : Int) (I : ℚ) (img : I
         inb2_of hy0 hyH l.1 (lt_of_le_of_lt l.2.1 hxW), inb2_of hy0 hyH r.1 r.2.1,
         inb2_of t.1 (lt_of_le_of_lt t.2.1 hyH) hx0 hxW,
         inb2_of b.1 b.2.1 hx0 hxW, crossSupport, encArms]
+    -- the number of iterations each `range(...)` of the source allows is the hand model's `iters`
+    case nleft => first | exact rangeLen_down x lenArms x rfl | range_len
+    case nright => first | exact rangeLen_up x lenArms W (W - 1 - x) (by omega) | range_len
+    case ntop => first | exact rangeLen_down y lenArms y rfl | range_len
+    case nbot => first | exact rangeLen_up y lenArms H (H - 1 - y) (by omega) | range_len
     case left =>
       intro t ht ok len
       have ht' : t + 1 ≤ x := by simp only [iters] at ht; omega
